@@ -266,6 +266,40 @@ func suiteC18(s *Suite, rng *Rng, tier string) {
 					res = tryErr(func() error { _, err := gabikeys.NewPrivateKeyFromXML(d, false); return err })
 					check18(s, "privkey(demo=false)", "p", "non-safe-prime", res, false, false)
 				}
+				// each of the two primes in turn: a prime that is not safe, a composite with a prime half, a composite with a
+				// composite half -- always with the consistent half (x-1)/2, so that only the safe-prime test can refuse it
+				for _, which := range []string{"p", "q"} {
+					base, other := kp.Sk.P, kp.Sk.Q
+					if which == "q" {
+						base, other = kp.Sk.Q, kp.Sk.P
+					}
+					half := func(x *gbig.Int) *gbig.Int { return new(gbig.Int).Rsh(x, 1) }
+					find := func(ok func(x *gbig.Int) bool) *gbig.Int {
+						x := new(gbig.Int).Add(base, bi(2))
+						x.SetBit(x, 0, 1)
+						for !ok(x) {
+							x.Add(x, bi(2))
+						}
+						return x
+					}
+					bad := map[string]*gbig.Int{
+						"prime-with-composite-half":     find(func(x *gbig.Int) bool { return x.ProbablyPrime(20) && !half(x).ProbablyPrime(20) }),
+						"composite-with-prime-half":     find(func(x *gbig.Int) bool { return !x.ProbablyPrime(20) && half(x).ProbablyPrime(20) }),
+						"composite-with-composite-half": find(func(x *gbig.Int) bool { return !x.ProbablyPrime(20) && !half(x).ProbablyPrime(20) }),
+					}
+					for kind, x := range bad {
+						d := elemReplace(elemReplace(privXML, which, x.String()), which+"Prime", half(x).String())
+						for _, demo := range []bool{false, true} {
+							res := tryErr(func() error { _, err := gabikeys.NewPrivateKeyFromXML(d, demo); return err })
+							check18(s, fmt.Sprintf("privkey(demo=%v)", demo), which, kind, res, demo, demo)
+							vals := map[string]*gbig.Int{"p": kp.Sk.P, "q": kp.Sk.Q}
+							vals[which] = x
+							safe := func(v *gbig.Int) bool { return v.ProbablyPrime(20) && half(v).ProbablyPrime(20) }
+							s.Add(1806, "privkey-doc:"+which+":"+kind, false, L{safe(vals["p"]), safe(vals["q"]), demo, vals["p"], vals["q"], half(vals["p"]), half(vals["q"])}, outOf(res))
+						}
+						_ = other
+					}
+				}
 			}
 		}
 	}
